@@ -65,14 +65,20 @@ impl<const N: usize> Clone for ServerUser<N> {
     #[verifier::external_body]
     fn clone(&self) -> (r: Self) ensures r == *self { unimplemented!() }
 }
-/// tcp.rs Context::{check_nonce,set_nonce}: Mutex<LruCache> with interior mutability -- modelled as an oracle, NOT verified
+/// R20: the salt replay cache (Mutex<LruCache> reached through &Context) as a ghost token threaded through the decode path:
+/// the set of salts the cache holds.  ASSUMED: try_lock succeeds (contention is a concurrency effect, C09), no expiry/eviction inside one call.
+pub tracked struct SaltCache { pub ghost salts: Set<Seq<u8>> }
+/// tcp.rs Context::{check_nonce,set_nonce}: contracts over the token, bodies NOT verified
 impl<const N: usize> Context<N> {
-    uninterp spec fn salt_seen(&self, salt: Seq<u8>) -> bool;
     spec fn has_users(&self) -> bool { self.user_manager matches Some(m) && m.count() > 0 }
     #[verifier::external_body]
-    fn check_nonce(&self, nonce: &[u8]) -> (r: bool) ensures r == self.salt_seen(nonce@) { unimplemented!() }
+    fn check_nonce(&self, nonce: &[u8], Tracked(vcache): Tracked<&mut SaltCache>) -> (r: bool)
+        ensures r == old(vcache).salts.contains(nonce@), *final(vcache) == *old(vcache)
+    { unimplemented!() }
     #[verifier::external_body]
-    fn set_nonce(&self, nonce: [u8; N]) { unimplemented!() }
+    fn set_nonce(&self, nonce: [u8; N], Tracked(vcache): Tracked<&mut SaltCache>)
+        ensures final(vcache).salts == old(vcache).salts.insert(nonce@)
+    { unimplemented!() }
 }
 impl<const N: usize> Default for Identity<N> {
     /// tcp.rs Identity::default (rand fill): fresh random salt, no request salt, no user
@@ -457,7 +463,7 @@ impl<const N: usize> AEADCipherCodec<N> {
         }
     }
 
-    fn decode(&mut self, context: &Context<N>, session: &mut Session<N>, src: &mut BytesMut) -> (r: anyhow::Result<Option<BytesMut>>)
+    fn decode(&mut self, context: &Context<N>, session: &mut Session<N>, src: &mut BytesMut, Tracked(vcache): Tracked<&mut SaltCache>) -> (r: anyhow::Result<Option<BytesMut>>)
         requires old(self).wf(), context.wf(),
         ensures final(self).wf(), final(self).encoder == old(self).encoder,
             final(session).mode == old(session).mode, final(session).identity.salt == old(session).identity.salt,
@@ -470,6 +476,9 @@ impl<const N: usize> AEADCipherCodec<N> {
             }}),
             //#C04
             old(src)@.len() == 0 ==> (r matches Ok(None) && final(src)@ == old(src)@ && final(self).decoder == old(self).decoder),
+            //#C04 C01 C10
+            // the replay cache is touched only by an accepted 2022 request: never while waiting, never by an established or legacy stream
+            (r matches Ok(None) || old(self).decoder is Some || !context.kind.is_2022()) ==> final(vcache).salts == old(vcache).salts,
             //#C04 C03 C06 C01
             (old(self).decoder is None && !context.kind.is_2022() && old(src)@.len() > 0) ==> legacy_first(*old(self), *context, old(src)@, *final(self), final(src)@, r),
         decreases (if old(self).decoder is None { 2int } else { 0int }),
@@ -483,16 +492,18 @@ impl<const N: usize> AEADCipherCodec<N> {
                 decoder.decode_payload(src, &mut dst).map_err(|e| verif_err())?;
                 if dst.is_empty() { Ok(None) } else { Ok(Some(dst)) }
             }
-            None => self.init_payload_decoder(context, session, src),
+            None => self.init_payload_decoder(context, session, src, Tracked(vcache)),
         }
     }
 
-    fn init_payload_decoder(&mut self, context: &Context<N>, session: &mut Session<N>, src: &mut BytesMut) -> (r: anyhow::Result<Option<BytesMut>>)
+    fn init_payload_decoder(&mut self, context: &Context<N>, session: &mut Session<N>, src: &mut BytesMut, Tracked(vcache): Tracked<&mut SaltCache>) -> (r: anyhow::Result<Option<BytesMut>>)
         requires old(self).wf(), context.wf(), old(self).decoder is None,
         ensures final(self).wf(), final(self).encoder == old(self).encoder,
             final(session).mode == old(session).mode, final(session).identity.salt == old(session).identity.salt,
             //#C04 C07
             old(src)@.len() < N ==> (r matches Ok(None) && final(src)@ == old(src)@ && final(self).decoder is None),
+            //#C04 C01 C10
+            (r matches Ok(None) || !context.kind.is_2022()) ==> final(vcache).salts == old(vcache).salts,
             //#C04 C03 C06 C01
             !context.kind.is_2022() ==> legacy_first(*old(self), *context, old(src)@, *final(self), final(src)@, r),
         decreases 1int,
@@ -501,13 +512,13 @@ impl<const N: usize> AEADCipherCodec<N> {
             return Ok(None);
         }
         if context.kind.is_aead_2022() {
-            self.init_aead_2022_payload_decoder(context, session, src)
+            self.init_aead_2022_payload_decoder(context, session, src, Tracked(vcache))
         } else {
             let salt = src.split_to(session.identity.salt.len());
             /*R2*/
             self.decoder = Some(ssaead__new_decoder(context.kind, &context.key, &salt).map_err(verif_err_from)?);
             proof { assert(salt@ =~= old(src)@.take(N as int)); assert(context.key@.len() == N); }
-            self.decode(context, session, src)
+            self.decode(context, session, src, Tracked(vcache))
         }
     }
 
@@ -515,16 +526,22 @@ impl<const N: usize> AEADCipherCodec<N> {
         &mut self,
         context: &Context<N>,
         session: &mut Session<N>,
-        src: &mut BytesMut,
+        src: &mut BytesMut, Tracked(vcache): Tracked<&mut SaltCache>
     ) -> (r: anyhow::Result<Option<BytesMut>>)
         requires old(self).wf(), context.wf(), old(self).decoder is None, context.kind.is_2022(), old(src)@.len() >= N,
         ensures final(self).wf(), final(self).encoder == old(self).encoder,
             final(session).mode == old(session).mode, final(session).identity.salt == old(session).identity.salt,
             //#C04
             r matches Ok(None) ==> (final(src)@ == old(src)@ && final(self).decoder is None),
+            //#C04 C01
+            // waiting for the rest of the first chunk records nothing: the retry must not meet its own salt in the replay cache
+            r matches Ok(None) ==> final(vcache).salts == old(vcache).salts,
+            //#C10
+            // an accepted request's salt was not in the cache, and is in it afterwards
+            r matches Ok(Some(b)) ==> final(vcache).salts == old(vcache).salts.insert(old(src)@.take(N as int)),
             //#C10 C05 C06
             // accepted: the decoder is installed and the salt was not in the replay cache
-            r matches Ok(Some(b)) ==> (final(self).decoder is Some && final(self).decoder.unwrap().alg() == alg_of(context.kind) && !context.salt_seen(old(src)@.take(N as int))),
+            r matches Ok(Some(b)) ==> (final(self).decoder is Some && final(self).decoder.unwrap().alg() == alg_of(context.kind) && !old(vcache).salts.contains(old(src)@.take(N as int))),
             //#C06 C05 C03
             // key: the server key, or -- with identity headers -- the key of the registered user the header names
             r matches Ok(Some(b)) ==> (hs_eih_len(old(session).mode, *context) == 0 ==> final(self).decoder.unwrap().key() == s2022_subkey(context.kind, context.key@, old(src)@.take(N as int))),
@@ -555,7 +572,7 @@ impl<const N: usize> AEADCipherCodec<N> {
         let mut _src = Cursor::new(src);
         _src.copy_to_slice(&mut salt);
         proof { assert(salt@ =~= old(src)@.take(N as int)); }
-        if context.check_nonce(&salt) {
+        if context.check_nonce(&salt, Tracked(vcache)) {
             return Err(verif_err());
         }
         /*R2*/
@@ -602,7 +619,7 @@ impl<const N: usize> AEADCipherCodec<N> {
         };
         let length = header.get_u16() as usize;
         if _src.remaining() >= length + tag_size {
-            context.set_nonce(salt);
+            context.set_nonce(salt, Tracked(vcache));
             let position = _src.position();
             let src = _src.into_inner();
             src.advance(position as usize);
